@@ -107,7 +107,7 @@ class Scenario:
                     return False
                 o = outs[-1]
                 self.sb.delete(o)
-                if o.endswith("/"):
+                if o.endswith("/") or o in c.attrs.get("x-dir-out", ()):
                     self.sb.write(o.rstrip("/"), "obstruction")
                 else:
                     os.makedirs(self.sb.p(o + "/x"))
